@@ -35,6 +35,8 @@ Others == {Other("int42", <<>>, "", ""), Other("named", <<>>, "", ""), Other("st
            Other("strhiddenempty", <<"String">>, "", ""), Other("nilptr", <<>>, "", ""), Other("bytes", <<>>, "", "")}
 Nested == {[k |-> "cell", inner |-> d] : d \in {Str("a", L("a")), [k |-> "nil"], Obj(<<"String">>, ""), Obj(<<"Error", "Height">>, "")}}
           \cup {[k |-> "cell", inner |-> [k |-> "cell", inner |-> Str("a\nbb", << <<"a", 1>>, <<"bb", 2>> >>)]]}
+          \cup {[k |-> "cellptr", inner |-> d] : d \in {Str("a\nbb", << <<"a", 1>>, <<"bb", 2>> >>), Str("", <<>>), [k |-> "nil"],
+                                                        Obj(<<"String", "Height", "Width">>, ""), Obj(<<"Error">>, "")}}
 Alphabet == Plain \cup Objs \cup Others \cup Nested
 
 TheCell == [kind |-> "cell", r |-> 1, c |-> 1]
